@@ -80,6 +80,10 @@ func (g *c19Gen) Next(w *World, n int) *Step {
 	r := g.r
 	c := &w.Cfg
 	b := r.Intn(len(w.Browsers))
+	if c.SecondSite && (n == 0 && r.Bool() || r.Chance(1, 15)) {
+		// the other site hosted by this process registers a visitor of its own
+		return &Step{Kind: "second_site", B: b, Str: map[string]string{"what": []string{"register", "register", "login"}[r.Intn(3)]}}
+	}
 	switch r.Intn(12) {
 	case 0:
 		a := r.Intn(len(w.Accts))
